@@ -80,6 +80,7 @@ func (o *Object) String() string { return fmt.Sprintf("%s#%d", o.Name, o.ID) }
 type State struct {
 	mem    map[*Object]Value
 	pc     *Term
+	path   *Term // branch decisions only (conjunction of the conditions of the branches taken); nil = true
 	ghosts map[string]*Term
 	srcVar map[string]Value // source-level variable name -> current value (for register vars) or *PtrV (for addressable)
 	srcAdr map[string]bool
@@ -87,7 +88,7 @@ type State struct {
 }
 
 func (s *State) clone() *State {
-	n := &State{mem: make(map[*Object]Value, len(s.mem)), pc: s.pc, ghosts: map[string]*Term{}, srcVar: map[string]Value{}, srcAdr: map[string]bool{}}
+	n := &State{mem: make(map[*Object]Value, len(s.mem)), pc: s.pc, path: s.path, ghosts: map[string]*Term{}, srcVar: map[string]Value{}, srcAdr: map[string]bool{}}
 	for k, v := range s.mem {
 		n.mem[k] = v
 	}
